@@ -493,6 +493,112 @@ def entropy_gauge_rule(chk, src):
                       "skipping the gauge change for an already left-canonical copy returns the bond entropies in reversed order")
 
 
+# ---------------------------------------------------------------------------------------------- discarding the imaginary part of a matrix element
+def _dnf(t):
+    """disjunctive normal form of a test as a list of conjunctions (lists of (atom, positive))"""
+    if isinstance(t, ast.BoolOp) and isinstance(t.op, ast.Or):
+        return [c for v in t.values for c in _dnf(v)]
+    if isinstance(t, ast.BoolOp) and isinstance(t.op, ast.And):
+        out = [[]]
+        for v in t.values:
+            out = [a + b for a in out for b in _dnf(v)]
+        return out
+    if isinstance(t, ast.UnaryOp) and isinstance(t.op, ast.Not):
+        inner = t.operand
+        if isinstance(inner, ast.BoolOp):   # De Morgan
+            neg = ast.BoolOp(op=ast.And() if isinstance(inner.op, ast.Or) else ast.Or(), values=[ast.UnaryOp(op=ast.Not(), operand=v) for v in inner.values])
+            return _dnf(neg)
+        if isinstance(inner, ast.UnaryOp) and isinstance(inner.op, ast.Not):
+            return _dnf(inner.operand)
+        return [[(inner, False)]]
+    return [[(t, True)]]
+
+
+def real_cast_rule(chk, src):
+    """<bra|O|ket> with a bra different from the ket is complex in general.  In every function that takes a separate bra, a returned `.real` of the computed
+    value must be guarded, on every way of reaching it, either by a test that the value's own imaginary part vanishes, or by the realness of *all* of
+    ket, bra and operator(s)."""
+    chk.rule("real-cast-guard", "a matrix element <bra|O|ket> is returned as its real part only after its imaginary part was tested, or when ket, bra and operators are all real", 4)
+    TREE = "renormalizer/tn/tree.py"
+    targets = []
+    for rel in (MPS, "renormalizer/mps/mpdm.py", TREE):
+        for fi in src.funcs_in(rel):
+            ps = fi.params()
+            bra = [p for p in ps if p in ("self_conj", "bra", "mps_conj", "bra_mps")]
+            if bra and fi.cls is not None and "." not in fi.qual.split(".", 1)[-1]:
+                targets.append((fi, bra[0]))
+    for fi, bra in targets:
+        from ..src import defs_of
+        # single-assignment boolean temporaries are followed to their definition
+        def expand(t, depth=0):
+            if isinstance(t, ast.Name) and depth < 3:
+                d = defs_of(fi.node, t.id)
+                if len(d) == 1 and isinstance(d[0], ast.expr):
+                    return expand_expr(d[0], depth + 1)
+            return t
+
+        def expand_expr(t, depth=0):
+            if isinstance(t, ast.BoolOp):
+                return ast.BoolOp(op=t.op, values=[expand_expr(v, depth) for v in t.values])
+            if isinstance(t, ast.UnaryOp) and isinstance(t.op, ast.Not):
+                return ast.UnaryOp(op=ast.Not(), operand=expand_expr(t.operand, depth))
+            return expand(t, depth)
+
+        # operator parameter(s)
+        ops = [p for p in fi.params() if p in ("mpo", "mpos", "ttno", "ttnos", "operator")]
+        n = 0
+        parents = {}
+        for x in ast.walk(fi.node):
+            for ch in ast.iter_child_nodes(x):
+                parents[ch] = x
+        for r in ast.walk(fi.node):
+            if not isinstance(r, ast.Return) or r.value is None:
+                continue
+            reals = [a for a in ast.walk(r.value) if (isinstance(a, ast.Attribute) and a.attr == "real") or (isinstance(a, ast.Call) and unparse(a.func) in ("np.real", "xp.real"))]
+            if not reals:
+                continue
+            subj = unparse(reals[0].value if isinstance(reals[0], ast.Attribute) else reals[0].args[0])
+            # conditions on the way to the return: (test, polarity)
+            conds, node = [], r
+            while node in parents:
+                par = parents[node]
+                if isinstance(par, ast.If):
+                    conds.append((par.test, node in par.body))
+                node = par
+            n += 1
+            problems = []
+            guarded = False
+            for test, pol in conds:
+                t = expand_expr(test if pol else ast.UnaryOp(op=ast.Not(), operand=test))
+                ok_all = True
+                for conj in _dnf(t):
+                    txt = [(unparse(a).replace(" ", ""), pos) for a, pos in conj]
+                    imag = any(pos and (".imag" in a) and subj.replace(" ", "") + ".imag" in a and ("isclose" in a or "allclose" in a or a.endswith("==0")) for a, pos in txt)
+                    real_of = set()
+                    for a, pos in txt:
+                        if not pos and a.endswith(".is_complex") and "for" not in a:
+                            real_of.add(a[:-len(".is_complex")])
+                        if not pos and a.startswith("any(") and ".is_complex" in a:
+                            real_of.update(o for o in ops if f"in{o})" in a or f"in{o}]" in a)
+                        if pos and a.startswith("all(") and "not" in a and ".is_complex" in a:
+                            real_of.update(o for o in ops if f"in{o})" in a)
+                    need = {"self", bra} | set(ops)
+                    if not imag and not need <= real_of:
+                        ok_all = False
+                        problems.append(f"reached when `{' and '.join(('' if pos else 'not ') + unparse(a) for a, pos in conj)}` holds: neither `{subj}.imag` is tested nor are all of "
+                                        f"{sorted(need)} known to be real (missing: {sorted(need - real_of)})")
+                if ok_all:
+                    guarded = True
+                    break
+            if not conds:
+                problems.append("returned unconditionally")
+            chk.ob("real-cast-guard", f"{fi.qual}: return {unparse(r.value)[:40]}", guarded, fi.where, problems[:2] or "guarded", "guarded by a test of the imaginary part (or realness of ket, bra and operators)",
+                   line=r.lineno, detail=f"{fi.qual} returns the real part of <{bra}|O|self>: " + (problems[0] if problems else "") + " - with a complex bra and real ket / operators the "
+                                         "imaginary part of a transition amplitude is silently dropped")
+        if n == 0:
+            chk.note(f"{fi.qual}: no real-part return") if hasattr(chk, "note") else None
+
+
 def run(chk):
     src = chk.src
     chk.explanation = (
@@ -517,6 +623,7 @@ def run(chk):
     kernel_arg_rule(chk, src)
     freq_bound_rule(chk, src)
     rdm_rule(chk, src)
+    real_cast_rule(chk, src)
     chk.rule("entropy-gauge", "bond singular values are computed from a right-canonical working copy in every gauge of the input (abstract run)", 4)
     entropy_gauge_rule(chk, src)
     chk.rule("observable-cache", "per-model operator cache keys, electronic RDM assembly order, entropy formula (abstract runs)", 5)
